@@ -633,7 +633,8 @@ fn op_bulk_drop(k: u16, cx: &Cx) {
         let Some((id, c)) = wd.bulk.borrow_mut().pop() else { break };
         wd.m.borrow_mut().bulk_add(id, -1, false);
         oracle::lost_holder(wd, id);
-        if wd.m.borrow().holders(id).1 == 0 {
+        // the pool stops being a root of the object when its last pooled handle goes (reachability may change then)
+        if wd.m.borrow().bulk_count(id) == 0 {
             wd.m.borrow_mut().latch();
         }
         release(Some(c), Some(id), cx);
